@@ -1,7 +1,7 @@
 //! Seeded workload generators: one integer -> one case (scenario, parameters, policy, fault plan).
 
 use crate::case::{Case, DItem, Descend, Mode, Sweep, Walks, GK};
-use crate::corpus::{Root, MOVE_TWINS, ODD_FENS, PERPETUALS, ROOTS, SIBLINGS};
+use crate::corpus::{Root, MOVE_TWINS, ODD_FENS, PERPETUALS, RIGHTS_LINES, ROOTS, SIBLINGS};
 use crate::model::Pos;
 use crate::verif_shim::sched::{splitmix, Policy};
 
@@ -1372,6 +1372,20 @@ pub fn gen_sibling_pairs(prop: &str, seed: u64) -> Case {
     let mut rng = Rng::new(seed, 0x51b);
     let mut case = Case::new(prop, "direct-sibling-positions", seed, Mode::Direct);
     direct_params(&mut case, 400_000);
+    if rng.chance(1, 5) {
+        // histories that take a castling right away while king and rook end up at home
+        case.family = "direct-castling-rights-histories".into();
+        let (root, line) = *rng.pick(RIGHTS_LINES);
+        let l: Vec<String> = line.split_ascii_whitespace().map(|x| x.to_string()).collect();
+        for _ in 0..rng.range(1, 3) {
+            case.items.push(ditem(root, &l, Some(rng.range(1, 4) as u8), None));
+            let more = walk_from(&mut rng, root, &l, 2);
+            let mut l2 = l.clone();
+            l2.extend(more);
+            case.items.push(ditem(root, &l2, Some(rng.range(1, 3) as u8), None));
+        }
+        return case;
+    }
     if rng.chance(1, 4) {
         // twins reached by moves: the en-passant right exists in one line only
         case.family = "direct-move-reached-twins".into();
